@@ -47,7 +47,7 @@ PLAN = {
     "C06": dict(
         traces=[("sweep_c06", (1, 2)), ("long_c06", (1, 2)), ("c06", (400, 3000))],
         seeds=dict(quick=1, thorough=5),
-        mc=dict(quick=["MC_C06"]),
+        mc=dict(quick=["MC_C06", "MC_SYS"]),
         gen=dict(quick=[("Gen_C06", "Gen_C06.cfg")], thorough=[("Gen_C06", "Gen_C06_T.cfg"), ("Gen_C06", "Gen_C06_T3.cfg")]),
         rule="random edit histories (push/extend/append/prepend/insert/remove/truncate/clear/clone/to_owned) on 6 "
              "registers with argument slices at random offsets, full view logged after every step; TLC-enumerated "
